@@ -55,6 +55,7 @@ def run_scen(chk, scen, params, label, replay, sig):
 
 def run(chk):
     thorough = chk.tier == 'thorough'
+    chk.bounds['families added after seeded changes'] = 'domain-label twins for every quantifier kind'
     n = len(TL.pre_family())
     chk.bounds.update({'canonisation': f'every sub-formula of {n} preprocessed formula shapes (height <= 6) x every way to bind each variable occurrence / jump to an enclosing quantifier; wild-card and domain labels are symbolic 1-character names, one proposition is 2 symbolic characters; all pairs of sub-formulas of one tree (thorough: of two trees)',
                        'duplicates': 'mark_duplicates_canonized_multiple on lists of 1 (quick: 2 from a subset; thorough: all pairs) trees, three global iteration-order policies for HashSet / BinaryHeap ties',
